@@ -171,6 +171,14 @@ func runInChild(tasks []task) map[int][]stageOut {
 		// the child stopped early: on purpose after reporting a hang, or killed by the task after the last line
 		if done > 0 {
 			if st := out[rest[done-1].Idx]; len(st) > 0 && st[len(st)-1].O.kind == "hang" {
+				// a missed deadline on a busy machine is not yet a hang: the task runs once more, alone, with a
+				// deadline of two minutes, and only that outcome counts
+				os.Setenv("C16_CHILD_DEADLINE", "120s")
+				if st2, _, ok := runOne(self, rest[done-1]); ok {
+					out[rest[done-1].Idx] = st2
+				}
+				os.Unsetenv("C16_CHILD_DEADLINE")
+				res.Count("hang-rechecked-alone", 1)
 				rest = rest[done:]
 				continue
 			}
